@@ -41,6 +41,7 @@ type Atom struct {
 	MulB  AtomID
 	Trig  []*Trigger
 	Facts []*Lin // unconditional facts that hold wherever the atom is defined
+	owner *FA
 }
 
 // Trigger is a conditional fact: when all Conds are provable in the current
@@ -123,6 +124,8 @@ type Analysis struct {
 	byKey     map[string]AtomID
 	fas       map[*ssa.Function]*FA
 	nextTrig  int
+	faSeq     int
+	curFA     *FA
 	nextFresh int
 	// contracts
 	contracts map[*ssa.Function]*Contract
